@@ -467,7 +467,7 @@ class LocalConcurrences:
                 il = np.triu_indices(n=wp.shape[0], k=1 + self.window + windowdiff1, m=wp.shape[1])
                 wp[il] = ma.masked
             if self.only_triu:
-                il = np.tril_indices(self._wp.shape[0], k=-1)
+                il = np.tril_indices(n=wp.shape[0], k=-1, m=wp.shape[1])
                 wp[il] = -np.inf
                 wp[il] = ma.masked
 
